@@ -3,14 +3,21 @@ payloads (NaN payloads, infinities, negative zero), compared bit for bit."""
 import numpy as np
 
 
-def _payload(seed, shape):
+def _payload(seed, shape, inputs=None, name='d'):
+    """Adversarial binary64 payloads; cells the solver's counterexample names (``d_i_j`` as a
+    64-bit pattern) are taken from it."""
     n = int(np.prod(shape))
     rng = np.random.default_rng(seed)
     bits = rng.integers(0, 2 ** 63, size=n, dtype=np.uint64) * 2 + rng.integers(0, 2, size=n, dtype=np.uint64)
-    special = [0x7ff8000000000001, 0xfff8dead0000beef, 0x7ff0000000000000, 0xfff0000000000000,
-               0x8000000000000000, 0x0000000000000001, 0x7ff0000000000001]
-    for i in range(min(n, len(special))):
-        bits[(i * 5) % n] = special[i]
+    special = [0x8000000000000000, 0x7ff0000000000001, 0x7ff8000000000001, 0xfff8dead0000beef,
+               0x7ff0000000000000, 0xfff0000000000000, 0x0000000000000001]
+    for i in range(len(special)):
+        bits[(i + seed) % n] = special[i] if i < n else bits[(i + seed) % n]
+    bits = bits.reshape(shape)
+    for idx in np.ndindex(*shape):
+        v = (inputs or {}).get(name + ''.join('_%d' % i for i in idx))
+        if isinstance(v, int):
+            bits[idx] = np.uint64(v % (1 << 64))
     return bits.view(np.float64).reshape(shape).copy()
 
 
@@ -19,9 +26,9 @@ def _same(a, b):
                                                  np.ascontiguousarray(b).view(np.uint64))
 
 
-def _check_stack(T, N, W, seed=0):
+def _check_stack(T, N, W, seed=0, inputs=None):
     from fast_ticc import data_preparation as dp
-    data = _payload(seed, (T, N))
+    data = _payload(seed, (T, N), inputs)
     keep = data.copy()
     out = dp.stack_training_data(data, W)
     if out.shape != (T - W + 1, N * W):
@@ -42,10 +49,10 @@ def replay(w):
     obs, sig = {}, None
     try:
         if ob.startswith('stack_'):
-            sig, obs = _check_stack(int(n['T']), int(n['N']), int(n.get('W', w['inputs'].get('W', 1))))
+            sig, obs = _check_stack(int(n['T']), int(n['N']), int(n.get('W', w['inputs'].get('W', 1))), inputs=w['inputs'])
         elif ob == 'multi_is_concatenation_in_order':
             W, N, lens = int(n['W']), int(n['N']), [int(x) for x in n['lens']]
-            series = [_payload(s + 1, (L, N)) for s, L in enumerate(lens)]
+            series = [_payload(s + 1, (L, N), w['inputs'], 'd%d' % s) for s, L in enumerate(lens)]
             keep = [a.copy() for a in series]
             out = dp.stack_training_data_multiple_series(list(series), W)
             ref = np.vstack([dp.stack_training_data(a, W) for a in keep]) if False else None
